@@ -158,6 +158,9 @@ def run_models(ctx, rng, N):
             r = min(q1, q2)
             if True:   # solver='full': same LAPACK call as the oracle
                 Uf, s, Vtf = np.linalg.svd(Cm)
+                if G.sign_near_tie(Vtf[:k, :]) or G.sign_near_tie(Uf[:, :k].T):
+                    ctx.dist["skipped-in-correspondence:sign-rule-near-tie"] += 1
+                    continue
                 cplx = sp.cplx
                 f = lambda A: G.c_mat(np.asarray(A, dtype=complex if cplx else float), cplx)  # noqa
                 v = lambda a: G.c_vec(np.asarray(a, dtype=complex if cplx else float), cplx)  # noqa
